@@ -84,7 +84,7 @@ class Extent(SymRule):
     def sym_assign(self, ctx, lhs, rhs, op, ts):
         l = strip(lhs)
         if l is not None and l.k == 'var' and op == '=' and rhs is not None:
-            ts = frozenset(x for x in ts if not (isinstance(x, tuple) and len(x) == 3 and x[0] == 'blk' and x[1] == l.decl))
+            ts = frozenset(x for x in ts if not (isinstance(x, tuple) and len(x) == 4 and x[0] == 'blk' and x[1] == l.decl))
             r = strip(rhs)
             while r is not None and r.k == 'cast' and r.a:
                 r = strip(r.a[0])
@@ -97,8 +97,28 @@ class Extent(SymRule):
                     size = self.value(r.a[2], ts)
                 else:
                     size = self.value(r.a[1], ts)
+                if size is None:
+                    # size chosen by a conditional expression: one alternative per arm, each under its condition
+                    sz = strip(r.a[-1] if n not in ('calloc',) else r.a[2])
+                    while sz is not None and sz.k == 'cast' and sz.a:
+                        sz = strip(sz.a[0])
+                    if sz is not None and sz.k == 'cond':
+                        c0 = strip(sz.a[0])
+                        while c0 is not None and c0.k == 'cast' and c0.a:
+                            c0 = strip(c0.a[0])
+                        if c0 is not None and c0.k == 'bin' and c0.op in ('<', '<=', '>', '>=', '==', '!='):
+                            lv, rv = self.value(c0.a[0], ts), self.value(c0.a[1], ts)
+                            va, vb = self.value(sz.a[1], ts), self.value(sz.a[2], ts)
+                            neg = {'<': '>=', '<=': '>', '>': '<=', '>=': '<', '==': '!=', '!=': '=='}[c0.op]
+                            if None not in (lv, rv, va, vb):
+                                ts = ts | frozenset([('blk', l.decl, va, tuple(cons_of(c0.op, lv, rv))),
+                                                     ('blk', l.decl, vb, tuple(cons_of(neg, lv, rv)))])
+                                ts = self.set_key(ts, ('v', l.decl), Lin({'&' + l.op: 1}))
+                                self.alts = getattr(self, 'alts', 0) + 1
+                    if not any(isinstance(x, tuple) and x[0] == 'blk' and x[1] == l.decl for x in ts):
+                        self.unknown_sizes = getattr(self, 'unknown_sizes', []) + [(l.op, ctx.node)]
                 if size is not None:
-                    ts = ts | frozenset([('blk', l.decl, size)])
+                    ts = ts | frozenset([('blk', l.decl, size, ())])
                     ts = self.set_key(ts, ('v', l.decl), Lin({'&' + l.op: 1}))
         return ts
 
@@ -114,7 +134,7 @@ class Extent(SymRule):
         if dv is None:
             return ts
         for x in ts:
-            if isinstance(x, tuple) and len(x) == 3 and x[0] == 'blk':
+            if isinstance(x, tuple) and len(x) == 4 and x[0] == 'blk':
                 base = None
                 for v in list(self.fn.locals.values()):
                     if v.decl == x[1]:
@@ -130,7 +150,8 @@ class Extent(SymRule):
                 size = x[2]
                 over = off + ln - size - Lin(None, 1)          # off + n - size - 1 >= 0
                 syms = set(k for c in self.cons(ts) for k in c.t) | set(over.t)
-                w = fm_feasible(self.cons(ts) + [over] + [Lin({k: 1}) for k in syms])
+                syms |= set(k for c in x[3] for k in c.t)
+                w = fm_feasible(self.cons(ts) + list(x[3]) + [over] + [Lin({k: 1}) for k in syms])
                 if w is not None:
                     self.violate(ctx, 'overrun', '%s() writes %r bytes at offset %r into %s, allocated with %r bytes on this path: '
                                  'nothing bounds the length by the allocation (e.g. %s)' % (
@@ -151,6 +172,16 @@ def check_buffer_extents(ck, prog, config, clause, only=None):
             continue
         r = Extent(prog, fn)
         run_rule(prog, fn, r)
+        for nm, nd in getattr(r, 'unknown_sizes', []):
+            # a block whose size the linear domain cannot express and that receives descriptor data: undecided
+            for ex in all_exprs(fn):
+                for c in calls_in(ex):
+                    if callee_name(c) in WRITERS:
+                        d = c.a[1:][WRITERS[callee_name(c)][0]]
+                        from ..ir import walk as _w
+                        if any(x.k == 'var' and x.op == nm for x in _w(d)):
+                            ck.require(False, '%s: %s receives data from a descriptor but its allocation size at line %d '
+                                       'is not a linear expression' % (fn.name, nm, getattr(nd, 'line', 0)))
         if not r.checked and not r.violations:
             continue
         total += r.checked
